@@ -36,6 +36,7 @@ callers.
 #* "warning_cls_on_decorator_exception".
 
 # ....................{ IMPORTS                            }....................
+from beartype.roar import BeartypeConfParamException
 from beartype.roar._roarwarn import (
     _BeartypeConfReduceDecoratorExceptionToWarningDefault)
 from beartype._conf.confenum import (
@@ -882,7 +883,17 @@ class BeartypeConf(object):
 
             # Previously instantiated configuration whose parameters compare
             # equal to these parameters if any *OR* "None" otherwise.
-            conf_cached = _beartype_conf_args_to_conf.get(conf_args)
+            #
+            # Note that one or more of these parameters may be unhashable (e.g.,
+            # "hint_overrides" passed a "dict", "claw_skip_package_names" passed
+            # a "list"). In that case, defer to the validation performed below
+            # to raise a human-readable exception rather than "TypeError".
+            try:
+                conf_cached = _beartype_conf_args_to_conf.get(conf_args)
+                is_conf_args_hashable = True
+            except TypeError:
+                conf_cached = None
+                is_conf_args_hashable = False
 
             # If this method has already instantiated such a configuration...
             if conf_cached is not None:
@@ -942,6 +953,15 @@ class BeartypeConf(object):
             # If one or more passed parameters are invalid, raise an exception.
             die_if_conf_kwargs_invalid(conf_kwargs)
             # Else, all passed parameters are valid.
+
+            # If one or more of these otherwise valid parameters are unhashable,
+            # this configuration is unmemoizable. Raise an exception.
+            if not is_conf_args_hashable:
+                raise BeartypeConfParamException(
+                    f'Beartype configuration parameters {repr(conf_args)} '
+                    f'unhashable (e.g., due to passing a list or dictionary '
+                    f'where a tuple or frozen dictionary is expected).'
+                )
 
             # If a previously instantiated configuration compares equal to
             # these valid parameters (despite one or more of these parameters
